@@ -188,6 +188,10 @@ pub fn run(cx: &mut Cx) {
         "depend/colons-1/bad-path",
         "depend/colons-2/rejected",
         "depend/colons-3/rejected",
+        "workload/real_names",
+        "depend_words/fields-2",
+        "depend_words/fields-3",
+        "depend_words/fields-4",
     ] {
         cx.ev.require(k);
     }
@@ -232,6 +236,30 @@ pub fn run(cx: &mut Cx) {
         );
     }
 
+    // (b2) real-looking names (digit-initial, '+', '.', '_', upper case, one
+    // character, vocabulary words) as category and as package, in accepted
+    // and rejected shapes
+    let stride = cx.pick_tier(64u64, 8, 1, 1);
+    let mut i = 0u64;
+    for c in gm::REAL_NAMES.iter() {
+        for p in gm::REAL_NAMES.iter() {
+            for s in gm::real_name_forms(c, p) {
+                i += 1;
+                if i % stride != 0 || !cx.mine(i / stride) {
+                    continue;
+                }
+                cx.check(
+                    || format!("real-name path \"{}\"", show(s.as_bytes())),
+                    |ev| {
+                        ev.count("workload/real_names");
+                        check_path(ev, &s)
+                    },
+                );
+            }
+        }
+    }
+    cx.ev.max("max/real_name_strings", i);
+
     // (c) Depend: every pattern x path x colon form
     let stride = if cx.tier == Tier::Mini { 24u64 } else { 1 };
     let mut i = 0u64;
@@ -253,4 +281,32 @@ pub fn run(cx: &mut Cx) {
         }
     }
     cx.ev.max("max/depend_strings", i);
+
+    // (d) Depend: every arrangement of 1-4 ':'-separated fields over plain
+    // vocabulary words (each a valid pattern on its own), valid patterns and
+    // valid paths - a word in front of, between or behind a valid
+    // 'pattern:pkgpath' must not make a three- or four-field string acceptable
+    let k = gm::DEP_FIELDS.len();
+    let mut total = 0u64;
+    for n in 1..=4usize {
+        let stride = if n <= 2 { cx.pick_tier(4u64, 1, 1, 1) } else { cx.pick_tier(512u64, 16, 1, 1) };
+        let mut i = 0u64;
+        for code in 0..k.pow(n as u32) {
+            i += 1;
+            total += 1;
+            if i % stride != 0 || !cx.mine(i / stride) {
+                continue;
+            }
+            let s = gm::word_fields(n, code);
+            cx.check(
+                || format!("depend word fields \"{}\"", show(s.as_bytes())),
+                |ev| {
+                    ev.count("workload/depend_words");
+                    ev.count(&format!("depend_words/fields-{n}"));
+                    check_depend(ev, &s)
+                },
+            );
+        }
+    }
+    cx.ev.max("max/depend_word_strings", total);
 }
